@@ -258,3 +258,74 @@ mod tests {
         }
     }
 }
+
+// ---------------------------------------------------------------------------------------------
+// Date-times: (date, time-of-day ns)
+
+pub const NS_PER_DAY: i128 = 86_400_000_000_000;
+
+#[derive(Debug, Clone, Copy, PartialEq, Eq, PartialOrd, Ord, Hash)]
+pub struct Dt {
+    pub date: Ymd,
+    pub tod: i128,
+}
+
+impl Dt {
+    pub fn new(date: Ymd, tod: i128) -> Self {
+        Dt { date, tod }
+    }
+    pub fn epoch_ns(&self) -> i128 {
+        self.date.epoch_day() as i128 * NS_PER_DAY + self.tod
+    }
+    /// ISODateTimeWithinLimits: strictly between the instant limits widened by one day.
+    pub fn in_limits(&self) -> bool {
+        let ns = self.epoch_ns();
+        ns > -(MAX_INSTANT_NS + NS_PER_DAY) && ns < MAX_INSTANT_NS + NS_PER_DAY
+    }
+}
+
+/// AddDateTime: time part first with exact carry into days, then the date part as for plain dates.
+pub fn add_date_time(dt: Dt, dur: DateDur, time_ns: i128, overflow: Overflow) -> Result<Dt, RErr> {
+    let t = dt.tod + time_ns;
+    let carry = t.div_euclid(NS_PER_DAY);
+    let tod = t.rem_euclid(NS_PER_DAY);
+    // AddISODate with days + carry; the date itself must be a representable date
+    let (iy, im) = balance_year_month(dt.date.y + dur.years, dt.date.m as i64 + dur.months);
+    let dim = days_in_month(iy, im);
+    let day = if dt.date.d > dim {
+        match overflow {
+            Overflow::Constrain => dim,
+            Overflow::Reject => return Err(RErr::Range),
+        }
+    } else {
+        dt.date.d
+    };
+    let e = days_from_civil(iy, im, day) as i128 + dur.days as i128 + 7 * dur.weeks as i128 + carry;
+    if e < MIN_DAY as i128 || e > MAX_DAY as i128 {
+        return Err(RErr::Range);
+    }
+    let r = Dt { date: Ymd::from_epoch_day(e as i64), tod };
+    if !r.in_limits() {
+        return Err(RErr::Range);
+    }
+    Ok(r)
+}
+
+/// DifferenceISODateTime: returns the date part and the exact time part in ns.
+/// `date_largest`: None when the largest unit is a time unit (then days are folded into the time part).
+pub fn diff_date_time(a: Dt, b: Dt, date_largest: Option<DUnit>) -> (DateDur, i128) {
+    let mut time = b.tod - a.tod;
+    let time_sign = time.signum();
+    let date_sign = (b.date.cmp(&a.date) as i8) as i128;
+    let mut adjusted = b.date;
+    if time_sign != 0 && time_sign == -date_sign {
+        adjusted = Ymd::from_epoch_day(b.date.epoch_day() + time_sign as i64);
+        time += -time_sign * NS_PER_DAY;
+    }
+    let dd = diff_iso_date(a.date, adjusted, date_largest.unwrap_or(DUnit::Day));
+    if date_largest.is_none() {
+        time += dd.days as i128 * NS_PER_DAY;
+        return (DateDur::default(), time);
+    }
+    (dd, time)
+}
